@@ -33,7 +33,9 @@ Init == cell = [m |-> "init"] /\ st = St0 /\ res = [ok |-> TRUE]
 
 Out(c) == IF Emit THEN PrintT(<<"T", ToJson(c)>>) ELSE TRUE
 
-DoOwn(c) == LET o == OwnerStep(st.pos, Row(c.msg), c.signer) IN
+DoOwn(c) == \E env \in BOOLEAN :
+            LET o == OwnerStep(st.pos, Row(c.msg), c.signer, env) IN
+            /\ (OwnerPredicted(Row(c.msg), c.signer) => env)        \* env only matters for the unpredicted cells
             /\ cell' = c /\ res' = [ok |-> o.ok] /\ st' = [st EXCEPT !.pos = o.pos]
 DoPriv(c) == LET ok == ImplPrivOk(c.v, c.chain, c.sender) IN
             /\ cell' = c /\ res' = [ok |-> ok] /\ st' = IF ok THEN [st EXCEPT !.ver = st.ver + 1] ELSE st
